@@ -216,6 +216,20 @@ claim('C05',
       'exhaustive enumeration of stock cases and attachable models with a residual-recomputation oracle',
       'DESIGN.md#c05')
 
+claim('C14',
+      'Reference = one uninterrupted run of a classical-machine system (fault + line trip), a static system (toggles + '
+      'alteration) and kundur_full (line trip). Interruptions: every accepted-step boundary of the reference among the first '
+      '12 steps, te-eps / te / te+eps for every event, off-grid times; all singles and all pairs; continuation by extending tf '
+      'and calling run() again, by save_ss -> load_ss in the same process, and by loading the snapshot in a fresh interpreter. '
+      'The event log must equal the reference log (none lost, repeated or shifted), the time axis must be strictly increasing '
+      'with no gap beyond the step and contain every split time, the final state must agree (1e-9 at step boundaries, '
+      'discretisation bound otherwise), variables must be views of the DAE arrays after load_ss; reset + power flow x3 must '
+      'reproduce the first solution and DAE sizes on 6 cases.',
+      'Snapshot modes at the event lattice and every 4th boundary (dill costs 2 s); fresh-process continuation judged by '
+      'trajectory, not by callback log.',
+      'exhaustive enumeration of interruption points (crash-point style) x continuation modes against the uninterrupted run',
+      'DESIGN.md#c14')
+
 _PENDING = 'check not built yet in this round; planned per DESIGN.md (bounded exhaustive exploration applies)'
 for _p in ALL:
     if _p not in CLAIMED:
